@@ -75,7 +75,7 @@ func (E *Env) scanGlobals() {
 			}
 			gi := &globalInfo{}
 			E.globals[g] = gi
-			if storesOutsideInit[g] || addrTaken[g] {
+			if storesOutsideInit[g] || addrTaken[g] || g.Name() == "init$guard" {
 				continue
 			}
 			gi.immutable = true
